@@ -4,6 +4,7 @@ pub mod c02;
 pub mod c03;
 pub mod c04;
 pub mod c05;
+pub mod c06;
 pub mod c07;
 pub mod c08;
 pub mod c09;
@@ -18,7 +19,7 @@ pub mod c18;
 
 use crate::engine::Property;
 
-pub const ALL_IDS: &[&str] = &["C01", "C02", "C03", "C04", "C05", "C07", "C08", "C09", "C10", "C11", "C12", "C13", "C14", "C16", "C17", "C18"];
+pub const ALL_IDS: &[&str] = &["C01", "C02", "C03", "C04", "C05", "C06", "C07", "C08", "C09", "C10", "C11", "C12", "C13", "C14", "C16", "C17", "C18"];
 
 pub fn build(id: &str) -> Option<Property> {
     match id {
@@ -27,6 +28,7 @@ pub fn build(id: &str) -> Option<Property> {
         "C03" => Some(c03::build()),
         "C04" => Some(c04::build()),
         "C05" => Some(c05::build()),
+        "C06" => Some(c06::build()),
         "C07" => Some(c07::build()),
         "C08" => Some(c08::build()),
         "C09" => Some(c09::build()),
